@@ -83,7 +83,11 @@ func (vc *VC) applyContract(con *Contract, key string, n int, args []SV, st *Sta
 		vc.obligePre(key, n, r, reach, vc.evalBool(env, r.Expr), pos)
 	}
 	pre := st.clone()
-	switch con.Assigns {
+	assigns := con.Assigns
+	if assigns == "" && con.Kind == "extern" {
+		assigns = "fresh-only" // dependencies are assumed not to write memory that belongs to arr.ai values
+	}
+	switch assigns {
 	case "nothing":
 	case "fresh-only":
 		a := vc.allocTerm(st)
